@@ -613,7 +613,7 @@ enum Gate {
 
 impl World {
     // a set-call (SETREPL / SETCLUSTER) arrives at its proxy; logs the observable event
-    async fn arrive(&self, addr: &str, cmd: Vec<Vec<u8>>, kind: char) -> Option<RespVec> {
+    async fn arrive(&self, addr: &str, cmd: Vec<Vec<u8>>, kind: char, fresh: bool) -> Option<RespVec> {
         let epoch = if kind == 'R' {
             cmd.get(2).map(|b| String::from_utf8_lossy(b).to_string())
         } else {
@@ -624,8 +624,9 @@ impl World {
         let a = pidx(addr);
         let mut c = self.ctl.lock();
         c.trace.push(format!("d.{}.{}.{}.{}", a, kind, epoch, reply_word(&r)));
-        // monitor: within the migration-sync path the source is sent post-commit metadata only after the destination got it
-        if kind == 'C' {
+        // monitor: within one sync_migration_state the coordinator's own SETCLUSTER reaches the source only after its
+        // SETCLUSTER reached the destination (replayed stale calls are environment events, not the coordinator's order)
+        if kind == 'C' && fresh {
             let ids: Vec<usize> = c.post_commit.keys().cloned().collect();
             for id in ids {
                 let (src, dst) = c.post_commit[&id];
@@ -670,7 +671,7 @@ impl World {
                     Some(Held::ProxyCall { addr, cmd, kind }) => {
                         let tag = if kind == 'R' { j - 1 } else { j - 2 };
                         self.ctl.lock().replays.push(format!("{} d {} {}", at, tag, kind));
-                        self.arrive(&addr, cmd, kind).await;
+                        self.arrive(&addr, cmd, kind, false).await;
                     }
                     Some(Held::Commit(task)) => {
                         let id = self.key_id(&key_of(&task));
@@ -786,10 +787,10 @@ impl CoordClient {
             };
         }
         match f {
-            Fault::None => self.w.arrive(&self.addr, cmd, kind).await.ok_or(RedisClientError::Canceled),
+            Fault::None => self.w.arrive(&self.addr, cmd, kind, true).await.ok_or(RedisClientError::Canceled),
             Fault::Dup => {
-                let r = self.w.arrive(&self.addr, cmd.clone(), kind).await;
-                self.w.arrive(&self.addr, cmd, kind).await;
+                let r = self.w.arrive(&self.addr, cmd.clone(), kind, true).await;
+                self.w.arrive(&self.addr, cmd, kind, true).await;
                 r.ok_or(RedisClientError::Canceled)
             }
             Fault::Drop => lost(),
@@ -798,11 +799,11 @@ impl CoordClient {
                 lost()
             }
             Fault::NoReply => {
-                self.w.arrive(&self.addr, cmd, kind).await;
+                self.w.arrive(&self.addr, cmd, kind, true).await;
                 lost()
             }
             Fault::Crash => {
-                self.w.arrive(&self.addr, cmd, kind).await;
+                self.w.arrive(&self.addr, cmd, kind, true).await;
                 self.w.crash();
                 lost()
             }
@@ -1332,7 +1333,7 @@ async fn run_steps(w: Arc<World>, steps: Vec<Vec<String>>) -> (Vec<String>, Vec<
             _ => "-".to_string(),
         };
         fin.push(format!(
-            "{}:{}:{}:{}",
+            "{}|{}|{}|{}",
             i,
             v.map(|p| p.get_epoch().to_string()).unwrap_or_else(|| "-".into()),
             route,
